@@ -116,3 +116,27 @@ def reset_globals():
         if ('pkg', pid) in _cache:
             _cache[('pkg', pid)].compiled._index_cache.clear()
     tmo.settings.set_thermo(package('A').thermo)
+
+
+import contextlib
+
+
+@contextlib.contextmanager
+def no_compiled_cache_growth():
+    """Unpickling a stream by value re-creates its CompiledChemicals, which thermosteam registers in the
+    class-level CompiledChemicals._cache (keyed by the tuple of Chemical objects) and never releases: about
+    1 MB per unpickled stream.  The entries added inside this context are removed again on exit (the objects
+    built from them stay valid; only the global registry forgets them), so long runs do not exhaust memory."""
+    tmo = env.import_thermosteam()
+    from thermosteam import indexer
+    cache = tmo.CompiledChemicals._cache
+    icache = indexer.MaterialIndexer._index_caches      # keyed by (phases, chemicals): same story
+    before = set(cache)
+    ibefore = set(icache)
+    try:
+        yield
+    finally:
+        for k in [k for k in cache if k not in before]:
+            del cache[k]
+        for k in [k for k in icache if k not in ibefore]:
+            del icache[k]
